@@ -232,6 +232,8 @@ func runC15(c *Ctx) {
 		"onConnect sets the state before emitBuffered, emitBuffered clears under the mutex", 3)
 	bufferDecisionAtomic(c, "C15-D6")
 
+	c.Rule("C15-D8", "a refused CONNECT can be retried (F51): onConnectError sets the socket's state back to disconnected", 1)
+	connectErrorResetsState(c, "C15-D8")
 	c15EmitterModifiers(c)
 
 	c.Rule("C15-D4", "a new outage starts a new back-off cycle, and volatile means volatile everywhere: Manager.onClose resets the attempt counter on every path — whatever the reason and whether or not it starts a reconnect "+
